@@ -167,7 +167,7 @@ def c08(ctx):
     sem.scale_sem(ctx, "save", "MachineTrace_C08.cfg", scale(ctx, 1500, 15000))
     return ctx.finish("model_checking", "scripts of the 'save' corpus (1-5 statements, saves placed anywhere among probing sends: send-all and exact sends, with and "
                       "without bounded overdraft, balances negative/zero/positive); one evaluation = one save-split (whole vs prefix + suffix on the TLC-printed "
-                      "visible balance, with the save-deleted control); non-trivial = the statements after the save produce postings")
+                      "visible balance, with the save-deleted control); non-trivial = the statements after the save produce postings; plus every member of the exhaustive save-then-draw family of SemMC.tla (judged against the reference semantics on the balance the save left visible)")
 
 
 @check("C09")
@@ -208,7 +208,7 @@ def c12(ctx):
                       "a failure injected at the k-th store call for every k (TLC enumerates k and the reply shapes of the calls before it); "
                       "(b) error-free-parsing programs, well-typed and broken in 0-2 places (types, names, arity, variable texts, assets, zero denominators), "
                       "judged by TLC against MayFail/MustFail of SemErr.tla; non-trivial = a run that fails while executing or makes >= 2 store calls; "
-                      "distinct by (statement shape, outcome class, postings) resp. by program x content")
+                      "distinct by (statement shape, outcome class, postings) resp. by program x content; plus the exhaustive ill-typed family (every source-family member with one expression replaced by another type or an unknown name)")
 
 
 @check("C11")
@@ -304,7 +304,7 @@ def c11(ctx):
             v = r3["viols"][0]
             ctx.add_violation("C11 (free-running goroutines): %s" % v["what"], dict(kind="conc", property="C11", seed=ctx.seed, n=nr, free=True))
     return ctx.finish("model_checking", "one evaluation = one real run; per case: alone, twice on shared store objects, 3 repetitions, flag on/off, two goroutines under "
-                      "2 TLC-chosen interleavings, 8 free goroutines under the race detector; non-trivial = the script produces postings")
+                      "2 TLC-chosen interleavings, 8 free goroutines under the race detector; non-trivial = the script produces postings; a re-run with other variable texts in between against a freshly parsed copy; error messages compared between repetitions; the exhaustive save family as further cases")
 
 
 @check("C13")
